@@ -4,7 +4,7 @@
    correspondence); lookup_register / REGISTERS are GENERATED from asm.py (Gen/Encoders.v); py_int_lit is the model of
    int(s, 0) (Base/PyBase.v); regnum is the documented reading of a register operand (Spec/Operands.v). *)
 From Coq Require Import ZArith List String Ascii.
-From BB Require Import Base.PyBase Gen.Encoders Spec.RV32 Spec.Operands Model.Items Model.Lexer Model.Parser Proofs.LexSep Proofs.LexFront Proofs.ParseForms Proofs.Program.
+From BB Require Import Base.PyBase Gen.Encoders Spec.RV32 Spec.Operands Model.Items Model.Lexer Model.Parser Model.Passes Proofs.LexSep Proofs.LexFront Proofs.ParseForms Proofs.Program Proofs.Relabel.
 Import ListNotations.
 Open Scope Z_scope.
 
@@ -86,3 +86,18 @@ Theorem C13_program_styles : forall ts sty1 sty2,
   lex_tokens (unchars (render sty1 ts)) = lex_tokens (unchars (render sty2 ts)).
 Proof. exact lex_tokens_styles. Qed.
 Print Assumptions C13_program_styles.
+
+(* extra blank lines, whole-line comments (and moving text into an included file): the passes use the line attached to an
+   item ONLY to report errors.  Renaming the lines of the items by ANY function f (other physical numbers, other file names)
+   gives the same chunks payload, label table and constants; a failing run fails alike, naming the renamed line. *)
+Theorem C13_line_numbers_irrelevant : forall f its consts labels compress r,
+  assemble_items its consts labels compress = Done r ->
+  exists r', assemble_items (map (flit f) its) consts labels compress = Done r' /\
+             map snd (r_chunks r') = map snd (r_chunks r) /\ r_labels r' = r_labels r /\ r_consts r' = r_consts r.
+Proof. exact relabel_success. Qed.
+Print Assumptions C13_line_numbers_irrelevant.
+Theorem C13_line_numbers_errors : forall f its consts labels compress e,
+  assemble_items its consts labels compress = Fail e ->
+  assemble_items (map (flit f) its) consts labels compress = Fail (fperr f e).
+Proof. exact relabel_failure. Qed.
+Print Assumptions C13_line_numbers_errors.
